@@ -776,7 +776,288 @@ def _replay_cwv():
     return {"ran": True, "failed": False, "searched": n_checked}
 
 
-UNITS = [Method(K) for K in (5, 4, 3, 2, 1)] + [Dispatch(), SqInit()]
+# ---- choosewavevector for symbolic numofq ---------------------------------------------------------------------------
+
+
+def _lex_lt(p, q):
+    """p < q in lexicographic order (tuples of integer values)"""
+    out = False
+    for c in reversed(range(len(p))):
+        out = sv.or_(sv.cmp("<", p[c], q[c]), sv.and_(sv.cmp("==", p[c], q[c]), out))
+    return out
+
+
+class LexEnum:
+    """Ghost objects of the specification.  Box B = [-h, h)^d, documented set  D = {p in B : p.p is a perfect square}  (it contains 0).
+
+      V(p)          p.p is a perfect square                                       (PSQ of pyvc/libext/C04.py, uninterpreted)
+      below(L, pre) number of members of D whose first L+1 coordinates are `pre`   (nested counting sums, closed form)
+      rank(p)       = sum_{L<d} sum_{t=-h}^{p_L-1} below(L, (p_0..p_{L-1}, t))      the number of members of D that precede p in
+                    lexicographic order; defined for every p of [-h, h]^d (a coordinate h = one past the end of its axis)
+      CNT           = rank(h, -h, .., -h) = |D|
+      S(r, c)       coordinate c of the r-th member of D in lexicographic order, 0 <= r < CNT
+
+    rank and CNT are closed forms (Sigma-terms, nothing assumed).  S is the increasing enumeration of the finite set D; its defining
+    facts are the ones of the engine's boolean-mask selection (pyvc/relops.py: SEL/RANK) stated for d-dimensional positions:
+      (a) 0 <= r < CNT           ->  S(r) in B, V(S(r)), RK(S(r)) = r
+      (b) p in B, V(p)           ->  0 <= RK(p) < CNT, S(RK(p)) = p
+      (c) 0 <= r < r' < CNT      ->  S(r) <lex S(r')
+    with RK(p) = rank(p) (RK is the same closed form under a function symbol, so that the facts are instantiated per application).
+    (a)-(c) are theorems about finite sets (TRUSTED: not machine-checked); (b)'s bound and CNT <= (2h)^d are also obtained by the
+    induction lemmas of `cwv_lemmas`."""
+
+    def __init__(self, d, h):
+        self.d, self.h = d, h
+        I = z3.IntSort()
+        self.RK = z3.Function(f"LEXRANK{d}", *([I] * d), I)
+        self.SF = z3.Function(f"LEXSEL{d}", I, I, I)
+        self.lo = sv.neg(h)
+        self.CNT = self.rank_closed([h] + [self.lo] * (d - 1))
+
+    def valid(self, p):
+        from pyvc.libext.C04 import is_perfect_square
+        return is_perfect_square(_sum([sv.mul(x, x) for x in p]))
+
+    def in_box(self, p):
+        return sv.and_(*[sv.and_(sv.cmp(">=", x, self.lo), sv.cmp("<", x, self.h)) for x in p])
+
+    def below(self, pre):
+        """number of members of D whose leading coordinates are `pre`"""
+        if len(pre) == self.d:
+            return sv.ite(self.valid(pre), 1, 0)
+        return Sum(self.lo, self.h, lambda t: self.below(list(pre) + [t]))
+
+    def partial(self, pre, j):
+        """sum_{t=-h}^{j-1} below(pre + [t])"""
+        return Sum(self.lo, j, lambda t: self.below(list(pre) + [t]))
+
+    def rank_closed(self, p):
+        return _sum([self.partial(list(p[:L]), p[L]) for L in range(self.d)])
+
+    def rank(self, p):
+        return sv.SV(self.RK(*[sv.znum(x) for x in p]))
+
+    def S(self, r, c):
+        return sv.SV(self.SF(sv.znum(r), sv.znum(c)))
+
+    def row(self, r):
+        return [self.S(r, c) for c in range(self.d)]
+
+    # facts (z3 terms), for explicit instantiation and for per-application instantiation (ctx.array_fact)
+    def fact_rank(self, p):
+        p = [sv.wrap(x) if isinstance(x, z3.ExprRef) else x for x in p]
+        rk = self.rank(p)
+        b = sv.implies(sv.and_(self.in_box(p), self.valid(p)),
+                       sv.and_(sv.cmp(">=", rk, 0), sv.cmp("<", rk, self.CNT), *[sv.cmp("==", self.S(rk, c), p[c]) for c in range(self.d)]))
+        return sv.zb(sv.and_(sv.cmp("==", rk, self.rank_closed(p)), b))
+
+    def fact_sel(self, r):
+        r = sv.wrap(r) if isinstance(r, z3.ExprRef) else r
+        row = self.row(r)
+        return sv.zb(sv.implies(sv.and_(sv.cmp(">=", r, 0), sv.cmp("<", r, self.CNT)),
+                                sv.and_(self.in_box(row), self.valid(row), sv.cmp("==", self.rank(row), r))))
+
+    def fact_increasing(self, r, r2):
+        return sv.zb(sv.implies(sv.and_(sv.cmp(">=", r, 0), sv.cmp("<", r, r2), sv.cmp("<", r2, self.CNT)), _lex_lt(self.row(r), self.row(r2))))
+
+    def register(self, ctx):
+        ctx.array_fact(self.RK.name(), lambda *p: self.fact_rank(list(p)))
+        ctx.array_fact(self.SF.name(), lambda r, c: self.fact_sel(r))
+
+
+def _cwv_nest(s):
+    """the chain of `for` statements of choosewavevector's real AST that encloses the loop statement s (outermost first, s last), the
+    array and the counter of the compaction store `A[counter] = [...]` in the innermost body (found syntactically)"""
+    import ast
+
+    from pyvc.interp import load_module
+    fn = load_module(WV).defs["choosewavevector"]
+    chain = None
+
+    def walk(node, anc):
+        nonlocal chain
+        for ch in ast.iter_child_nodes(node):
+            if ch is s:
+                chain = anc + [ch]
+                return
+            walk(ch, anc + [ch] if isinstance(ch, ast.For) else anc)
+    walk(fn, [])
+    if chain is None:
+        return None
+    inner = s
+    depth = len(chain)
+    while True:
+        nxt = [b for b in inner.body if isinstance(b, ast.For)]
+        if len(nxt) != 1:
+            break
+        inner = nxt[0]
+        depth += 1
+    store = None
+    for n in ast.walk(inner):
+        if isinstance(n, ast.Assign) and len(n.targets) == 1 and isinstance(n.targets[0], ast.Subscript) \
+                and isinstance(n.targets[0].value, ast.Name) and isinstance(n.targets[0].slice, ast.Name):
+            store = (n.targets[0].value.id, n.targets[0].slice.id)
+    return chain, depth, store
+
+
+class ChooseWaveVectorSym(Unit):
+    """choosewavevector(ndim, numofq, onlypositive) for SYMBOLIC numofq >= 0, d in {2,3}, onlypositive in {False, True, 'x','y'(,'z')}.
+
+    Statement (property text + docstring): the returned rows are exactly - each once, in the lexicographic order of the loops - the
+    vectors n of [-h, h)^d, h = numofq // 2, with n != 0, n.n a perfect square, all components >= 0 (onlypositive=True) resp.
+    positive along the chosen axis and zero along the others ('x','y','z').
+
+    Written loop invariant (LexEnum; init/step obligations are generated from executions of the REAL loop bodies): with the loop
+    variables of the enclosing loops at v and the loop's own variable at k,
+        index = rank(v.., k, -h, .., -h),     qvectors[r] = S(r) for r < index,   = 0 for index <= r < numofq^d.
+    Clauses on the returned array R of length M (t, u arbitrary row indices, n an arbitrary integer vector):
+      soundness     0 <= t < M  ->  R[t] in the final set
+      completeness  n in the final set  ->  R[w] = n for a row w, 0 <= w < M (w = the composed ranks)
+      order         0 <= t < u < M  ->  R[t] <lex R[u]      (hence no duplicates)."""
+    module = WV
+    qualname = "choosewavevector"
+    prop = "C04"
+    timeout = 30
+    OPTS = {2: (False, True, "x", "y"), 3: (False, True, "x", "y", "z")}
+
+    def cases(self):
+        return [f"d={d}/numofq=symbolic/onlypositive={o}" for d in (2, 3) for o in self.OPTS[d]]
+
+    @staticmethod
+    def parse(case):
+        p = dict(x.split("=") for x in case.split("/"))
+        o = p["onlypositive"]
+        return int(p["d"]), (True if o == "True" else False if o == "False" else o)
+
+    def setup(self, ctx, case):
+        d, o = self.parse(case)
+        n = ctx.int("numofq")
+        ctx.assume(n >= 0)
+        h = sv.floordiv(n, 2)
+        E = LexEnum(d, h)
+        E.register(ctx)
+        ctx.interp.loop_hints[(f"{WV}.choosewavevector", "for", "*")] = lambda *a: self._loop_rule(E, n, *a)
+        inp = dict(d=d, o=o, n=n, h=h, E=E, t=ctx.int("t"), u=ctx.int("u"), nv=[ctx.int(f"n_{c}") for c in range(d)])
+        return [d, n, o], {}, inp
+
+    # ---- written loop invariant
+    def _loop_rule(self, E, n, interp, s, frame, st, lo, hi, item_fn):
+        from pyvc.loops import written_summary
+        from pyvc.state import cur
+        from pyvc.sv import EngineError
+        info = _cwv_nest(s)
+        if info is None:
+            return NotImplemented
+        chain, depth, store = info
+        d = E.d
+        if depth != d or store is None:
+            raise EngineError("choosewavevector: the loop nest is not a nest of depth ndim around a compaction store `A[counter] = [...]`")
+        aname, cname = store
+        arr, idx0 = frame.env.get(aname), frame.env.get(cname)
+        if not isinstance(arr, A.Arr) or arr.view is not None or idx0 is None:
+            raise EngineError(f"choosewavevector: `{aname}` / `{cname}` are not a local array and its fill counter")
+        L = len(chain) - 1
+        import ast
+        outer = []
+        for f in chain[:-1]:
+            if not isinstance(f.target, ast.Name) or f.target.id not in frame.env:
+                raise EngineError("choosewavevector: loop target is not a plain name")
+            outer.append(frame.env[f.target.id])
+        # the range must not be reversed (the summary's post-state is state(hi)); proved from numofq >= 0
+        cur().require(sv.cmp(">=", hi, lo), "loop:range-not-reversed")
+
+        def pos(k):
+            return list(outer) + [k] + [E.lo] * (d - 1 - L)
+
+        def index_at(k):
+            return E.rank(pos(k))
+
+        def content_at(k):
+            ik = index_at(k)
+
+            def fn(idx):
+                r, c = idx
+                return sv.ite(sv.cmp("<", r, ik), lambda: E.S(r, c), 0)
+            return fn
+
+        def assume_at(k):
+            k1 = A.simp(sv.add(k, 1))
+            facts = [E.fact_rank(pos(k)), E.fact_rank(pos(k1))]
+            if L < d - 1:
+                facts.append(E.fact_rank(list(outer) + [k, E.h] + [E.lo] * (d - 2 - L)))
+            facts.append(self._count_bound(E, n))
+            return facts
+        lbl = f"nest-level-{L}"
+        return written_summary(interp, s, frame, st, lo, hi, item_fn, {arr.sid: content_at}, env_at={cname: index_at}, label=lbl,
+                               assume_at=assume_at)
+
+    @staticmethod
+    def _count_bound(E, n):
+        """|D| <= numofq^d: instance of the induction lemmas `cwv:count-bound:*` (extra_checks)"""
+        return sv.zb(sv.cmp("<=", E.CNT, sv.power(n, E.d)))
+
+    def clause_names(self, case):
+        return ["result:2-D-int-array", "soundness:every-row-is-a-vector-of-the-documented-set", "completeness:every-vector-of-the-documented-set-is-a-row",
+                "order:rows-strictly-increasing-in-loop-order(no-duplicates)"]
+
+    @staticmethod
+    def final_set(E, o, p):
+        """membership of the integer vector p in the documented default set for the option o"""
+        conds = [E.in_box(p), E.valid(p), sv.or_(*[sv.cmp("!=", x, 0) for x in p])]
+        if o is True:
+            conds += [sv.cmp(">=", x, 0) for x in p]
+        elif isinstance(o, str):
+            ax = "xyz".index(o)
+            conds += [sv.cmp(">", x, 0) if c == ax else sv.cmp("==", x, 0) for c, x in enumerate(p)]
+        return sv.and_(*conds)
+
+    def ensures(self, ctx, case, inp, out):
+        from pyvc import relops
+        names = self.clause_names(case)
+        d, o, n, E, t, u, nv = inp["d"], inp["o"], inp["n"], inp["E"], inp["t"], inp["u"], inp["nv"]
+        R = out.value
+        if isinstance(R, A.Masked):
+            R = relops.masked_to_arr(R)          # assumed contract of a[mask]: rows of the selected positions in increasing order (SEL/RANK)
+        ok = isinstance(R, A.Arr) and R.ndim == 2 and A.dim_eq_syntactic(R.shape[1], d) and R.dtype == "int"
+        yield names[0], bool(ok)
+        if not ok:
+            for nm in names[1:]:
+                yield nm, False
+            return
+        M = R.shape[0]
+        # the boolean-mask selections the code applied after the loops, innermost (applied first) to outermost
+        layers, seen = [], set()
+        for q in out.state.qfacts:
+            if q[0] == "select-increasing":
+                key = q[2](0).t.decl().name()
+                if key not in seen:
+                    seen.add(key)
+                    layers.append(q[1:])
+        row_t, row_u = [R.get((t, c)) for c in range(d)], [R.get((u, c)) for c in range(d)]
+        int_t = sv.and_(sv.cmp(">=", t, 0), sv.cmp("<", t, M))
+        bound = self._count_bound(E, n)
+        top = E.fact_rank([E.h] + [E.lo] * (d - 1))
+        yield names[1], sv.implies(int_t, self.final_set(E, o, row_t)), {"assume": [bound, top]}
+        # completeness: the row that holds n is found through the ranks: w = RANK_last(.. RANK_1(rank(n)))
+        w = E.rank(nv)
+        for cnt, SEL, RANK in layers:
+            w = RANK(w)
+        row_w = [R.get((w, c)) for c in range(d)]
+        yield names[2], sv.implies(self.final_set(E, o, nv), sv.and_(sv.cmp(">=", w, 0), sv.cmp("<", w, M), *[sv.cmp("==", row_w[c], nv[c]) for c in range(d)])), \
+            {"assume": [bound, top, E.fact_rank(nv)]}
+        # order: every selection keeps the order of the rows (assumed: SEL increasing), the enumeration S is increasing (fact (c))
+        mono, a, b = [], t, u
+        for cnt, SEL, RANK in reversed(layers):
+            mono.append(sv.zb(sv.implies(sv.and_(sv.cmp(">=", a, 0), sv.cmp("<", a, b), sv.cmp("<", b, cnt)), sv.cmp("<", SEL(a), SEL(b)))))
+            a, b = SEL(a), SEL(b)
+        mono.append(E.fact_increasing(a, b))
+        yield names[3], sv.implies(sv.and_(int_t, sv.cmp("<", t, u), sv.cmp("<", u, M)), _lex_lt(row_t, row_u)), {"assume": [bound, top] + mono}
+
+    def replay(self, case, clause, model, seed):
+        return _replay_cwv()
+
+
+UNITS = [Method(K) for K in (5, 4, 3, 2, 1)] + [Dispatch(), SqInit(), ChooseWaveVectorSym()]
 BOUNDED_UNITS = [ChooseWaveVector()]
 
 
